@@ -355,3 +355,49 @@ C16_WORKLOADS = [
     ("new_sds_in_mixed", lambda L, d: prep_mixed(L, d, 16, 3), lambda L, d, rec: sess_new_sds(L, d, rec, None), False),
     ("new_image_in_mixed", lambda L, d: prep_mixed(L, d, 16, 3), lambda L, d, rec: sess_new_image(L, d, rec, None), False),
 ]
+
+
+# ---- pre-populated files whose LAST thing is a descriptor block / whose refs have wrapped (C17)
+def prep_h_dup_tail(L, d, ndds=4):
+    """two sessions: the second fills the first DD block exactly and then creates a DD (Hdupdd: no data)
+    that needs a new DD block, which is then the last thing in the file"""
+    p = _p(d)
+    fid = L.Hopen(p, DFACC_CREATE, ndds)
+    L.Hputelement(fid, 1000, 1, b"first element", 13)
+    L.Hclose(fid)                      # writes the version element: 2 DDs used
+    fid = L.Hopen(p, DFACC_RDWR, 0)
+    for i in range(ndds - 2):
+        L.Hputelement(fid, 1000, 2 + i, bytes([65 + i] * (6 + i)), 6 + i)
+    L.Hdupdd(fid, 1001, 1, 1000, 1)     # first DD block is full: new block, nothing after it
+    L.Hclose(fid)
+
+
+def prep_refs_wrapped(L, d, ndds=16):
+    """ref 65535 in use (Hnewref has to search) and low refs NOT in ascending order in the DD list:
+    DD order becomes (30,1), (1001,65535), VS 3, VH 3, (1000,2), ... so ref 2 sits after the old vdata's ref 3"""
+    p = _p(d)
+    fid = L.Hopen(p, DFACC_CREATE, ndds)
+    L.Hputelement(fid, 1000, 2, b"temp", 4)
+    L.Vinitialize(fid)
+    vs = L.VSattach(fid, -1, b"w")          # ref 3
+    L.VSsetname(vs, b"oldvd")
+    L.VSfdefine(vs, b"a", DFNT["int16"], 1)
+    L.VSsetfields(vs, b"a")
+    L.VSwrite(vs, struct.pack(">hhh", 7, 8, 9), 3, FULL_INTERLACE)
+    L.VSdetach(vs)
+    L.Vfinish(fid)
+    L.Hdeldd(fid, 1000, 2)
+    L.Hputelement(fid, 1001, 65535, b"top", 3)      # takes the freed first slot
+    L.Hputelement(fid, 1000, 2, b"second", 6)       # next free slot: after the vdata's DDs
+    L.Hputelement(fid, 1000, 4, b"fourth", 6)
+    L.Hclose(fid)
+
+
+C17_EXTRA = []
+for _nd in (4, 5, 8):
+    C17_EXTRA.append(("h_elements_after_dd_tail_ndds%d" % _nd, (lambda nd: (lambda L, d: prep_h_dup_tail(L, d, nd)))(_nd),
+                      lambda L, d, rec, mark: sess_h_elements(L, d, rec, 5, mark), True))
+C17_EXTRA.append(("vdata_vgroup_refs_wrapped", prep_refs_wrapped, lambda L, d, rec, mark: sess_vdata_vgroup(L, d, rec, mark, 3), True))
+C17_EXTRA.append(("h_elements_refs_wrapped", prep_refs_wrapped, lambda L, d, rec, mark: sess_h_elements(L, d, rec, 4, mark), True))
+C17_WORKLOADS += C17_EXTRA
+C17_WORKLOADS_THOROUGH += C17_EXTRA
